@@ -387,6 +387,16 @@ func TestVerifC01(t *testing.T) {
 		os.MkdirAll(d, 0755)
 		return d
 	}, &ovMu, "C01")
+
+	// what the handlers share between requests (pooled buffers): an
+	// abandoned GET followed by a PUT; a short-bodied PUT after the same
+	// block went through the buffer (c01abandon_test.go)
+	vkSharedBuffers(t, run, hs, func() string {
+		ovNo++
+		d := fmt.Sprintf("%s/sb%d", base, ovNo)
+		os.MkdirAll(d, 0755)
+		return d
+	}, &ovMu, "C01")
 }
 
 // c01Concurrent: the same G1/P2 clauses under concurrency. Several clients GET,
